@@ -454,3 +454,100 @@ Proof.
   split; [vm_compute; reflexivity|]. split; [vm_compute; reflexivity|]. split; [vm_compute; reflexivity|].
   eexists. split; [vm_compute; reflexivity|]. vm_compute. reflexivity.
 Qed.
+
+(* ---- limiter instances (pointer replaced by Update) ---- *)
+Lemma inv_ldef : inv ldef.
+Proof. apply inv_init. lia. Qed.
+
+Lemma mstep_inv M ev M' :
+  Forall inv (m_gens M) -> mstep false M ev = Some M' -> Forall inv (m_gens M').
+Proof.
+  intros H Hst. destruct ev as [l | | g e | i up]; cbn [mstep] in Hst.
+  - destruct (m_cur M); [discriminate|]. destruct (0 <? l) eqn:E; [|discriminate].
+    apply Z.ltb_lt in E. inversion Hst; subst; cbn.
+    apply Forall_app. split; [exact H | constructor; [apply inv_init; exact E | constructor]].
+  - inversion Hst; subst. exact H.
+  - destruct (Nat.ltb g (length (m_gens M)) && (negb (targets_current e) || is_cur (m_cur M) g)); [|discriminate].
+    cbn [andb] in Hst.
+    destruct (lstep true (getn ldef g (m_gens M)) e) as [sg'|] eqn:E; [|discriminate].
+    inversion Hst; subst; cbn.
+    apply Forall_upd; [exact inv_ldef | | exact H].
+    eapply lstep_inv; [|exact E]. apply Forall_getn; [exact inv_ldef | exact H].
+  - destruct (getn UIdle i (m_unl M)); destruct up; try discriminate;
+      try (destruct (m_cur M); try discriminate); inversion Hst; subst; exact H.
+Qed.
+
+Lemma mrun_inv tr : forall M M', Forall inv (m_gens M) -> mrun false M tr = Some M' ->
+  Forall inv (m_gens M').
+Proof.
+  induction tr as [|e r IH]; intros M M' H Hr; cbn [mrun] in Hr.
+  - inversion Hr; subst. exact H.
+  - destruct (mstep false M e) as [M1|] eqn:E; [|discriminate].
+    eapply IH; [eapply mstep_inv; eassumption | exact Hr].
+Qed.
+
+Definition mreach (M : mstate) : Prop := exists tr, mrun false minit tr = Some M.
+
+Lemma now_of_nonneg y : 0 <= now_of y.
+Proof. unfold now_of, b2z. destruct (s_pc y); try destruct (s_held y); lia. Qed.
+Lemma tmp_of_nonneg y : 0 <= tmp_of y.
+Proof. unfold tmp_of, b2z. destruct (s_pc y); try destruct (s_held y); lia. Qed.
+Lemma live_le_now y : is_live y <= now_of y.
+Proof. unfold is_live, now_of, b2z. destruct (s_pc y); try destruct (s_held y); lia. Qed.
+
+(* every limiter instance that ever existed keeps exact books of ITS OWN connections *)
+Lemma every_instance M g : mreach M ->
+  let s := getn ldef g (m_gens M) in
+  c_now (l_c s) = sumz now_of (l_ss s) /\ c_tmp (l_c s) = sumz tmp_of (l_ss s) /\
+  0 <= c_now (l_c s) /\ 0 <= c_tmp (l_c s) /\
+  admitted s <= c_now (l_c s) /\ admitted s <= l_hw s /\
+  (c_tmp (l_c s) <= c_lim (l_c s) -> admitted s <= c_lim (l_c s)).
+Proof.
+  intros (tr & Hr) s.
+  assert (Hall : Forall inv (m_gens M)) by (apply (mrun_inv tr minit M); [cbn; constructor | exact Hr]).
+  pose proof (Forall_getn lstate ldef inv inv_ldef _ Hall g) as Hi. fold s in Hi.
+  pose proof (inv_now s Hi) as Hn. pose proof (inv_tmp s Hi) as Ht.
+  pose proof (inv_k s Hi (l_hw s) (Z.le_refl _)) as Hk.
+  pose proof (wait_nonneg (l_hw s) (l_ss s)).
+  pose proof (sumz_le sess is_live pass_of live_le_pass (l_ss s)).
+  pose proof (sumz_le sess is_live now_of live_le_now (l_ss s)).
+  pose proof (sumz_nonneg sess now_of now_of_nonneg (l_ss s)).
+  pose proof (sumz_nonneg sess tmp_of tmp_of_nonneg (l_ss s)).
+  pose proof (pass_wait_le_tmp (c_lim (l_c s)) (l_ss s)).
+  pose proof (wait_nonneg (c_lim (l_c s)) (l_ss s)).
+  unfold admitted. repeat split; try lia.
+Qed.
+
+(* release-on-current: limit 1; A admitted through instance 0; limit switched off and on
+   again (fresh instance 1); A disconnects and is released on instance 1 (now = tmp = -1);
+   B and C are then both admitted through instance 1 whose limit is 1. *)
+Definition in_admit (g i : nat) : list mev :=
+  map (MIn g) [EConnect i SAccept true; EStep i; EStep i; EStep i; ELater i true].
+
+Definition witness_release_on_current : list mev :=
+  [MOn 1] ++ in_admit 0 0 ++ [MOff; MOn 1] ++ [MIn 0 (EClose 0); MIn 0 (EStep 0)]
+  ++ in_admit 1 0 ++ in_admit 1 1.
+
+Lemma release_on_current_refuted :
+  exists M, mrun true minit witness_release_on_current = Some M /\
+            let s := getn ldef 1 (m_gens M) in
+            admitted s = 2 /\ c_lim (l_c s) = 1 /\ l_hw s = 1 /\ c_now (l_c s) = 1 /\
+            sumz now_of (l_ss s) = 2.
+Proof.
+  eexists. split; [vm_compute; reflexivity|]. vm_compute. repeat split; reflexivity.
+Qed.
+
+(* the same history with release on the recorded instance: C is refused *)
+Lemma release_on_recorded_same_history :
+  mrun false minit witness_release_on_current = None /\
+  exists M, mrun false minit
+              ([MOn 1] ++ in_admit 0 0 ++ [MOff; MOn 1]
+               ++ [MIn 0 (EClose 0); MIn 0 (EStep 0); MIn 0 (EStep 0)] ++ in_admit 1 0
+               ++ map (MIn 1) [EConnect 1 SAccept true; EStep 1; EStep 1; EStep 1; EStep 1; EStep 1])
+            = Some M /\
+            admitted (getn ldef 1 (m_gens M)) = 1 /\ c_now (l_c (getn ldef 0 (m_gens M))) = 0 /\
+            madmitted M = 1.
+Proof.
+  split; [vm_compute; reflexivity|]. eexists. split; [vm_compute; reflexivity|].
+  vm_compute. repeat split; reflexivity.
+Qed.
